@@ -270,6 +270,14 @@ C06(c, o) ==
   IF ~(HasS(c) /\ ValidAll(o) /\ Projected(o)) THEN NoVerdict ELSE
   [ dom |-> TRUE, fails |-> UNION { StructFieldFails(c.S, o.out.structs[i], c.opts.mv) : i \in DOMAIN o.out.structs } ]
 
+(* C10, static part: what encase serialises is decided by the field types; with encase + glam every member glam can represent must be *)
+(* the glam type (an array or a narrower type is laid out differently by encase, also where the module cannot be executed)            *)
+C10Static(c, o) ==
+  IF ~(HasS(c) /\ ValidAll(o) /\ Projected(o) /\ c.opts.enc /\ c.opts.mv = "glam") THEN NoVerdict ELSE
+  [ dom |-> TRUE, fails |->
+      UNION { IF o.out.structs[i].name \in StructNames(c.S) /\ ST!HostShareable(c.S, o.out.structs[i].name)
+              THEN { "encase + glam: " \o m : m \in StructFieldFails(c.S, o.out.structs[i], "glam") } ELSE {} : i \in DOMAIN o.out.structs } ]
+
 (* ------------------------------------------------------------------ C05 (numbers carried by the assertions) *)
 AssertSet(st) == { [ field |-> (IF Has(a, "field") THEN a.field ELSE "<size>"), n |-> a.n ] : a \in Range(st.asserts) }
 ExpectedAssertSet(S, n) ==
@@ -743,6 +751,7 @@ Judge0(c, o) ==
     [] Enforce = "C05S" -> C05Sound(c, o)
     [] Enforce = "C01" -> C01(c, o)
     [] Enforce = "C10" -> C10(c, o)
+    [] Enforce = "C10S" -> C10Static(c, o)
     [] Enforce = "C02" -> C02(c, o)
     [] Enforce = "CONF" -> CONF(c, o)
     [] Enforce = "OUT" -> WholeOut(c, o)
@@ -762,7 +771,7 @@ Judge(c, o) ==
     [] Enforce = "C18" -> C18(c, o)
     [] OTHER -> Stateless(Judge0(c, o), c)
 
-Emit1(c, m) == PrintT("VERDICT " \o ToJson([ prop |-> (IF Enforce = "C05S" THEN "C05" ELSE IF Enforce = "C07W" THEN "C07" ELSE IF Enforce = "C03R" THEN "C03" ELSE IF Enforce = "C09R" THEN "C09" ELSE IF Enforce = "C13R" THEN "C13" ELSE Enforce), id |-> c.id, family |-> c.family, msg |-> m ]))
+Emit1(c, m) == PrintT("VERDICT " \o ToJson([ prop |-> (IF Enforce = "C05S" THEN "C05" ELSE IF Enforce = "C10S" THEN "C10" ELSE IF Enforce = "C07W" THEN "C07" ELSE IF Enforce = "C03R" THEN "C03" ELSE IF Enforce = "C09R" THEN "C09" ELSE IF Enforce = "C13R" THEN "C13" ELSE Enforce), id |-> c.id, family |-> c.family, msg |-> m ]))
 
 Init == l = 1 /\ cur = [ id |-> "", has_s |-> FALSE ] /\ nj = 0 /\ nbad = 0 /\ memo = [ sha |-> "", m |-> << >> ] /\ ph = << >> /\ hk = << >>
         /\ TLCSet(1, 0) /\ TLCSet(2, 0)
